@@ -179,6 +179,13 @@ pub struct Ctx {
     pub samples: Mutex<Vec<Value>>,
     pub states: AtomicU64,
     pub transitions: AtomicU64,
+    /// Which violation keys this check reports (explorers are shared between properties;
+    /// e.g. C17 only reports `panic|...` keys, C01 only `*.bounds.*`).
+    pub filter: fn(&str) -> bool,
+}
+
+fn accept_all(_: &str) -> bool {
+    true
 }
 
 impl Ctx {
@@ -201,7 +208,13 @@ impl Ctx {
             samples: Mutex::new(vec![]),
             states: AtomicU64::new(0),
             transitions: AtomicU64::new(0),
+            filter: accept_all,
         }
+    }
+
+    pub fn with_filter(mut self, f: fn(&str) -> bool) -> Self {
+        self.filter = f;
+        self
     }
 
     pub fn add_states(&self, n: u64) {
@@ -241,6 +254,9 @@ impl Ctx {
     }
 
     pub fn violation_for(&self, prop: &str, key: &str, what: &str, replay: Value) {
+        if !(self.filter)(key) {
+            return;
+        }
         if let Some(k) = self
             .known
             .iter()
